@@ -14,7 +14,7 @@ META = {
     "level": "exploration",
     "rule": ("case = {HUGR case (program AST, history?, metadata?), render configs}; distinct by JSON; non-trivial as "
              "for C01 (>= 6 nodes and an Ext/Dom/order/CF/static edge, poly call or insert_*)"),
-    "required": ["monitor:repo-test-documents", "monitor:render", "monitor:render-default-config", "monitor:nodes", "monitor:clusters", "monitor:edges", "monitor:labels",
+    "required": ["monitor:repo-test-documents", "monitor:render", "monitor:render-default-config", "monitor:renderer-reused", "monitor:nodes", "monitor:clusters", "monitor:edges", "monitor:labels",
                  "monitor:unchanged", "monitor:config-independence", "feature:order-edge", "feature:cf-edge",
                  "feature:static-edge", "feature:metadata", "feature:ext-op-name", "monitor:parser-selftest"],
     "reach": ["hugr.hugr.render:DotRenderer.render", "hugr.hugr.render:DotRenderer._viz_node",
@@ -110,6 +110,26 @@ def display_name(op, qualify):
     return op.name()
 
 
+_COMPANION: list = []
+
+
+def companion():
+    """a small HUGR with value, constant, function and order edges at low node indices"""
+    if not _COMPANION:
+        from hugr import ops, tys, val
+        from hugr.build import Dfg
+
+        d = Dfg(tys.Qubit, tys.Bool, tys.Tuple(tys.Bool, tys.Qubit))
+        q, b, t = d.inputs()
+        u = d.add_op(ops.UnpackTuple(), t)
+        c = d.load(val.Tuple(val.TRUE, val.FALSE))
+        n = d.add_op(ops.Noop(), b)
+        d.add_state_order(u, n)
+        d.set_outputs(q, n[0], u[0], u[1], c)
+        _COMPANION.append(d.hugr)
+    return _COMPANION[0]
+
+
 def check_render(ctx, h, case, stratum, configs):
     from hugr import tys
     from hugr.hugr.render import PALETTE, RenderConfig
@@ -130,6 +150,21 @@ def check_render(ctx, h, case, stratum, configs):
                 qual = False
             else:
                 src = h.render_dot(RenderConfig(PALETTE[pal], qual)).source
+                # one renderer object used for HUGR after HUGR must draw each exactly like a fresh one
+                from hugr.hugr.render import DotRenderer
+
+                # (self-contained, so that a replay of this case reproduces it: the renderer first draws a fixed
+                # companion HUGR whose node indices coincide with the first nodes of any HUGR, then this one)
+                rr = DotRenderer(RenderConfig(PALETTE[pal], qual))
+                rr.render(companion())
+                ctx.count("monitor:renderer-reused")
+                src2 = rr.render(h).source
+                if src2 != src:
+                    import difflib
+
+                    d = [ln for ln in difflib.unified_diff(src.splitlines(), src2.splitlines(), lineterm="", n=0)
+                         if not ln.startswith(("---", "+++", "@@"))][:4]
+                    bad("renderer-reuse", [pal, qual], "the DOT source a fresh renderer produces", d)
         except Exception as e:  # noqa: BLE001
             bad("render-raises", [pal, qual], "renders", f"{type(e).__name__}: {str(e)[:200]}")
             return
